@@ -9,7 +9,7 @@ def _driver(focus=None):
 
 
 CORR = {"driver": _driver()}
-for _f in ("fault", "restart", "scaler", "upd", "cb", "budget"):
+for _f in ("fault", "restart", "scaler", "upd", "cb", "budget", "fd"):
     CORR["driver:" + _f] = _driver(_f)
 
 
